@@ -69,6 +69,33 @@ fn build_tree(root: &Path, t: &Tree) {
         let fp = root.join(n);
         must(std::fs::write(&fp, c), "write", &fp);
     }
+    for o in &t.odd {
+        use std::os::unix::ffi::OsStrExt;
+        let dir = match o.place {
+            Some(i) => root.join(&t.dirs[i].name),
+            None => root.to_path_buf(),
+        };
+        let p = dir.join(std::ffi::OsStr::from_bytes(&o.name));
+        match o.kind {
+            gm::OddKind::File => must(std::fs::write(&p, b"odd\n"), "write", &p),
+            gm::OddKind::DanglingLink => must(std::os::unix::fs::symlink("does/not/exist", &p), "link", &p),
+            gm::OddKind::LinkLoop => must(std::os::unix::fs::symlink(std::ffi::OsStr::from_bytes(&o.name), &p), "link", &p),
+            gm::OddKind::LinkToFile => must(std::os::unix::fs::symlink("/etc/hostname", &p), "link", &p),
+            gm::OddKind::EmptyDir => must(std::fs::create_dir(&p), "create", &p),
+            gm::OddKind::IncompleteDir => {
+                must(std::fs::create_dir(&p), "create", &p);
+                let f = p.join("+COMMENT");
+                must(std::fs::write(&f, b"c\n"), "write", &f);
+            }
+            gm::OddKind::CompleteDir => {
+                must(std::fs::create_dir(&p), "create", &p);
+                for m in MANDATORY {
+                    let f = p.join(META_FILES[m]);
+                    must(std::fs::write(&f, b"x\n"), "write", &f);
+                }
+            }
+        }
+    }
 }
 
 fn describe_tree(t: &Tree) -> String {
@@ -94,7 +121,12 @@ fn describe_tree(t: &Tree) -> String {
         })
         .collect();
     let stray: Vec<&str> = t.stray.iter().map(|(n, _)| n.as_str()).collect();
-    format!("dirs [{}] plain files {:?}", dirs.join(", "), stray)
+    let odd: Vec<String> = t
+        .odd
+        .iter()
+        .map(|o| format!("{:?} {:?} in {}", o.kind, String::from_utf8_lossy(&o.name), o.place.map(|i| t.dirs[i].name.clone()).unwrap_or_else(|| "the database directory".into())))
+        .collect();
+    format!("dirs [{}] plain files {:?} other objects {:?}", dirs.join(", "), stray, odd)
 }
 
 fn check_tree(ev: &mut Ev, root: &Path, t: &Tree) -> CaseResult {
@@ -110,11 +142,30 @@ fn check_tree(ev: &mut Ev, root: &Path, t: &Tree) -> CaseResult {
     let db = PkgDB::open(root).map_err(|e| format!("PkgDB::open failed on a directory: {e}"))?;
     let limit = t.dirs.len() * 4 + t.stray.len() * 4 + 16;
     let mut seen: Vec<String> = vec![];
+    for o in &t.odd {
+        ev.count(&format!("other-objects/{:?}/{}", o.kind, if o.place.is_some() { "inside-a-package-directory" } else { "in-the-database-directory" }));
+        if std::str::from_utf8(&o.name).is_err() {
+            ev.count("other-objects/name-not-utf8");
+        }
+    }
+    let unnameable = t.odd.iter().filter(|o| o.kind == gm::OddKind::CompleteDir).count();
+    let mut errors = 0usize;
     for (k, item) in db.enumerate() {
-        if k >= limit {
+        if k >= limit + unnameable {
             return Err(format!("iterator yielded more than {limit} items").into());
         }
-        let pkg = item.map_err(|e| format!("iterator yielded an error: {e}"))?;
+        let pkg = match item {
+            Ok(p) => p,
+            // a complete package directory whose name is not UTF-8 has no
+            // `pkgname`: one error item each is the most that may happen, and
+            // the iteration has to go on with the other entries
+            Err(_) if errors < unnameable => {
+                errors += 1;
+                ev.count("items/error-for-unnameable-package-directory");
+                continue;
+            }
+            Err(e) => return Err(format!("iterator yielded an error: {e}").into()),
+        };
         let name = pkg.pkgname().clone();
         let Some(d) = t.dirs.iter().find(|d| d.name == name) else {
             let what = if t.stray.iter().any(|(n, _)| *n == name) { "a plain file" } else { "no directory" };
@@ -187,7 +238,9 @@ fn check_tree(ev: &mut Ev, root: &Path, t: &Tree) -> CaseResult {
         }
     }
     ev.add("packages_yielded", seen.len() as u64);
-    check_adaptors(ev, root, t)?;
+    if unnameable == 0 {
+        check_adaptors(ev, root, t)?;
+    }
     let multi = t.dirs.iter().filter(|d| d.complete() && om::count_dashes(&d.name) >= 2).count();
     if multi > 0 || t.dirs.iter().any(|d| !d.complete()) {
         let names: Vec<&[u8]> = t.dirs.iter().map(|d| d.name.as_bytes()).collect();
@@ -282,7 +335,7 @@ fn big_tree(strays: usize, incomplete: usize) -> Tree {
         dirs.push(mk(format!("partial{i}-0.{i}"), 1 + (i % 7) as u8));
     }
     let stray = (0..strays).map(|i| (format!("stray{i:06}"), String::new())).collect();
-    Tree { dirs, stray }
+    Tree { dirs, stray, odd: vec![] }
 }
 
 fn check_tables(ev: &mut Ev, mutated: &[String]) -> CaseResult {
@@ -418,6 +471,17 @@ pub fn run(cx: &mut Cx) {
         "table/decorated_rejected",
     ] {
         cx.ev.require(k);
+    }
+    if cx.tier != crate::fw::Tier::Mini {
+        for k in [
+            "other-objects/name-not-utf8",
+            "other-objects/CompleteDir/in-the-database-directory",
+            "other-objects/File/inside-a-package-directory",
+            "other-objects/DanglingLink/in-the-database-directory",
+            "other-objects/LinkLoop/in-the-database-directory",
+        ] {
+            cx.ev.require(k);
+        }
     }
     let scratch = cx.scratch.clone();
     must(std::fs::create_dir_all(&scratch), "create", &scratch);
